@@ -538,6 +538,15 @@ fn alg_group(bases: &[Pos]) -> String {
 /// Maximum number of pieces pulled out of a `SplitLines` iterator.
 const MAX_PIECES: usize = 64;
 
+/// The length an `ExactSizeIterator` reports: `len()`, which must agree with `size_hint()` (`N`, else `N!LO..HI`).
+fn r_len((n, hint): (usize, (usize, Option<usize>))) -> String {
+    if hint == (n, Some(n)) {
+        n.to_string()
+    } else {
+        format!("{}!{}..{}", n, hint.0, hint.1.map_or("-".to_string(), |h| h.to_string()))
+    }
+}
+
 fn lines_group(src: SourceTextRef<'_>, bases: &[Pos]) -> String {
     let mut out = String::from("(lines");
     for s in spans_of(bases) {
@@ -550,7 +559,7 @@ fn lines_group(src: SourceTextRef<'_>, bases: &[Pos]) -> String {
             None => pieces.push(PANIC.to_string()),
             Some(mut it) => {
                 while pieces.len() < MAX_PIECES {
-                    lens.push(obs(|| ExactSizeIterator::len(&it), |n| n.to_string()));
+                    lens.push(obs(|| (ExactSizeIterator::len(&it), it.size_hint()), r_len));
                     match guard(|| it.next()) {
                         None => {
                             pieces.push(PANIC.to_string());
@@ -558,7 +567,7 @@ fn lines_group(src: SourceTextRef<'_>, bases: &[Pos]) -> String {
                         }
                         Some(Some(piece)) => pieces.push(r_span(piece)),
                         Some(None) => {
-                            lens.push(obs(|| ExactSizeIterator::len(&it), |n| n.to_string()));
+                            lens.push(obs(|| (ExactSizeIterator::len(&it), it.size_hint()), r_len));
                             break;
                         }
                     }
